@@ -14,6 +14,7 @@ abandoning a connection discards what was not committed; DDL is durable at once.
 The engine is validated against the real sqlite3 library by sx/selftest.py (same statement sequences, concrete values)."""
 import re
 import sqlite3 as _real
+from .core import Unsupported
 
 IntegrityError = _real.IntegrityError
 OperationalError = _real.OperationalError
@@ -66,7 +67,7 @@ def _tokens(sql):
     while i < len(sql):
         m = _TOK.match(sql, i)
         if not m:
-            raise OperationalError("symsql: cannot tokenize %r" % sql[i:i + 20])
+            raise Unsupported("symsql: cannot tokenize %r" % sql[i:i + 20])
         i = m.end()
         if m.group("num") is not None:
             out.append(("num", int(m.group("num"))))
@@ -97,7 +98,7 @@ class _P(object):
 
     def need_kw(self, *words):
         if not self.kw(*words):
-            raise OperationalError("symsql: expected %s near %r" % (" ".join(words), self.peek()))
+            raise Unsupported("symsql: expected %s near %r" % (" ".join(words), self.peek()))
 
     def op(self, o):
         if self.peek() == ("op", o):
@@ -107,19 +108,19 @@ class _P(object):
 
     def need_op(self, o):
         if not self.op(o):
-            raise OperationalError("symsql: expected %r near %r" % (o, self.peek()))
+            raise Unsupported("symsql: expected %r near %r" % (o, self.peek()))
 
     def ident(self):
         k, v = self.peek()
         if k != "id":
-            raise OperationalError("symsql: expected identifier near %r" % (self.peek(),))
+            raise Unsupported("symsql: expected identifier near %r" % (self.peek(),))
         self.i += 1
         return v
 
     def end(self):
         self.op(";")
         if self.peek()[0] != "eof":
-            raise OperationalError("symsql: trailing tokens %r" % (self.t[self.i:],))
+            raise Unsupported("symsql: trailing tokens %r" % (self.t[self.i:],))
 
 
 _KEYWORDS = ("AND", "OR", "IS", "NOT", "NULL", "WHERE", "FROM", "SET", "VALUES", "INTO")
@@ -155,7 +156,7 @@ def _parse_value(p):
     if k == "id":
         p.i += 1
         return ("col", v)
-    raise OperationalError("symsql: value expected near %r" % (p.peek(),))
+    raise Unsupported("symsql: value expected near %r" % (p.peek(),))
 
 
 def _parse_cmp(p):
@@ -171,7 +172,7 @@ def _parse_cmp(p):
     for o in ("=", "!=", "<>", "<=", ">=", "<", ">"):
         if p.op(o):
             return ("cmp", {"<>": "!="}.get(o, o), a, _parse_value(p))
-    raise OperationalError("symsql: comparison expected near %r" % (p.peek(),))
+    raise Unsupported("symsql: comparison expected near %r" % (p.peek(),))
 
 
 def _parse_and(p):
@@ -285,6 +286,9 @@ def _parse_stmt(p):
         while True:
             if p.op("*"):
                 cols.append(("star",))
+            elif p.peek()[0] in ("num", "str"):
+                cols.append(("lit", p.peek()[1]))
+                p.i += 1
             else:
                 name = p.ident()
                 if p.op("("):
@@ -306,13 +310,13 @@ def _parse_stmt(p):
         if p.op("=") or p.op("("):
             k, v = p.peek()
             if k not in ("id", "num", "str"):
-                raise OperationalError("symsql: PRAGMA value near %r" % (p.peek(),))
+                raise Unsupported("symsql: PRAGMA value near %r" % (p.peek(),))
             p.i += 1
             val = v
             p.op(")")
         p.end()
         return ("pragma", name, val)
-    raise OperationalError("symsql: unsupported statement near %r" % (p.peek(),))
+    raise Unsupported("symsql: unsupported statement near %r" % (p.peek(),))
 
 
 # the pragmas that decide what a process death leaves behind (everything else sqlite accepts is accepted and ignored here)
@@ -390,7 +394,7 @@ class _Eval(object):
             if node[1] not in self.aff:
                 raise OperationalError("no such column: %s" % node[1])
             return row[node[1]]
-        raise OperationalError("symsql: bad value node %r" % (node,))
+        raise Unsupported("symsql: bad value node %r" % (node,))
 
     def cond(self, node, row):
         k = node[0]
@@ -654,7 +658,7 @@ class Cursor(object):
                 out = []
                 for c in cols:
                     if c[0] != "agg":
-                        raise OperationalError("symsql: mixing aggregates and columns")
+                        raise Unsupported("symsql: mixing aggregates and columns")
                     vals = [r[c[2]] for r in hits if r[c[2]] is not None]
                     if c[1] == "max":
                         m = None
@@ -669,15 +673,22 @@ class Cursor(object):
                     elif c[1] == "count":
                         out.append(len(vals))
                     else:
-                        raise OperationalError("symsql: aggregate %s" % c[1])
+                        raise Unsupported("symsql: aggregate %s" % c[1])
                 self._rows = [tuple(out)]
             else:
-                names = []
-                for c in cols:
-                    names += t.colnames() if c[0] == "star" else [c[1]]
-                self._rows = [tuple(self._out(r[n]) for n in names) for r in hits]
+                self._rows = []
+                for r in hits:
+                    row = []
+                    for c in cols:
+                        if c[0] == "star":
+                            row += [self._out(r[n]) for n in t.colnames()]
+                        elif c[0] == "lit":
+                            row.append(self._out(c[1]))
+                        else:
+                            row.append(self._out(r[c[1]]))
+                    self._rows.append(tuple(row))
             return self
-        raise OperationalError("symsql: unsupported statement kind %s" % kind)
+        raise Unsupported("symsql: unsupported statement kind %s" % kind)
 
     def _autocommit(self, write):
         conn = self.conn
